@@ -58,6 +58,22 @@ def main(argv):
         return replay.replay_file(a.replay)
 
     t0 = time.time()
+    # the reference transcription (oracle of every contract / unit check) must reproduce all fixture
+    # values of both suites on the real crates; otherwise the check is not trusted
+    fixtures = None
+    if pid not in ("C08", "C09"):
+        from . import replay as _rp
+        exe, err = _rp.build_replay_tool()
+        if exe is None:
+            print("BROKEN-CHECK reference validation: replay tool does not build:", err[-300:])
+            return 2
+        pr = subprocess.run([exe, "fixtures"], stdout=subprocess.PIPE, stderr=subprocess.STDOUT)
+        out = pr.stdout.decode(errors="replace")
+        m = re.search(r"FIXTURES ok=(\d+) mismatched=(\d+)", out)
+        fixtures = dict(ok=int(m.group(1)), mismatched=int(m.group(2))) if m else None
+        if pr.returncode != 0 or not m or fixtures["mismatched"] != 0:
+            print("BROKEN-CHECK reference validation: the reference transcription does not reproduce the fixture files:", out[-400:])
+            return 2
     specs = PROPS[pid](tier, seed)
     if a.only:
         specs = [s for s in specs if a.only in s.name]
@@ -187,7 +203,7 @@ def main(argv):
     decided = [s for s in specs if results[s.name]["status"] in ("pass", "fail")]
     # ---- evidence ------------------------------------------------------------------------------
     if not a.no_evidence and not a.only:
-        write_evidence(pid, tier, seed, specs, results, wall, walls, violations, known_hits, broken, undecided)
+        write_evidence(pid, tier, seed, specs, results, wall, walls, violations, known_hits, broken, undecided, fixtures)
 
     # ---- report --------------------------------------------------------------------------------
     print("check %s tier=%s seed=%d: %d queries, %d decided, %d undecided, %d broken, wall %.0fs" % (
@@ -225,7 +241,7 @@ def main(argv):
     return rc
 
 
-def write_evidence(pid, tier, seed, specs, results, wall, walls, violations, known_hits, broken, undecided):
+def write_evidence(pid, tier, seed, specs, results, wall, walls, violations, known_hits, broken, undecided, fixtures=None):
     ev_dir = os.path.join(VERIF, "evidence")
     os.makedirs(ev_dir, exist_ok=True)
     decided = [s for s in specs if results[s.name]["status"] in ("pass", "fail")]
@@ -269,6 +285,7 @@ def write_evidence(pid, tier, seed, specs, results, wall, walls, violations, kno
             counterexamples=[dict(harness=s.name, shape=s.shape, failed=results[s.name].get("failed_checks"),
                                   transport=results[s.name].get("transport")) for (s, _) in violations],
             known_findings_seen=sorted(set(k["key"] for (_, _, k) in known_hits)),
+            reference_fixture_values_reproduced_on_real_crates=(fixtures or {}).get("ok"),
             traces_validated_against_impl=sum(1 for s in specs if (results[s.name].get("transport") or {}).get("reproduced") is True),
         ),
         assumptions=ASSUMPTIONS.get(pid, []) + ASSUMPTIONS.get("*", []),
